@@ -352,6 +352,8 @@ class TJPTransformer(Transformer[Any, Any]):
                 seconds = int(value * 86400)
             else:
                 seconds = 3600  # default 1 hour
+            if seconds <= 0:
+                raise ValueError(f"timingresolution must be a positive amount of time, not {duration}")
             return ("timingresolution", seconds)
         return ("timingresolution", 3600)
 
